@@ -55,11 +55,11 @@ theorem steps_append (a b : List Event) : steps (a ++ b) = steps a + steps b := 
 
 theorem steps_cons_exec (f k : String) (d : Dir) (o : Out) (t : List Event) :
     steps (Event.exec f k d o :: t) = 1 + steps t := by
-  simp [steps, List.filter_cons]; omega
+  simp [steps]; omega
 
 theorem steps_cons_enter (f : String) (d : Dir) (t : List Event) :
     steps (Event.enter f d :: t) = steps t := by
-  simp [steps, List.filter_cons]
+  simp [steps]
 
 /-- a result that did not run out of fuel and executed at most `b` processors -/
 def WOk (b : Nat) (r : WalkRes) : Prop := r.err ≠ some .fuel ∧ steps r.trace ≤ b
@@ -83,21 +83,24 @@ theorem walkEdges_ok (rec : String → WalkRes) (name : String) (b : Nat) :
     | node t =>
       simp only []
       have hr := h e (List.mem_cons_self) t ht
-      by_cases hc : e.cond = name
+      by_cases hc : (e.cond == name) = true
       · simp only [hc, if_true]
         by_cases herr : (rec t).err.isSome = true
         · simp only [herr, if_true]
           exact ⟨hr.1, by rw [hmul]; exact Nat.le_trans hr.2 (Nat.le_add_left _ _)⟩
-        · simp only [herr]
-          have := hrest (rec t).sc
-          refine ⟨this.1, ?_⟩
-          simp only [Bool.false_eq_true, if_false, steps_append]
-          rw [hmul]
-          have h1 := hr.2
-          have h2 := this.2
-          omega
-      · have hne : (e.cond == name) = false := by simp [hc]
-        simp only [hne]
+        · simp only [herr, Bool.false_eq_true, if_false]
+          by_cases hsc : (rec t).sc.isSome = true
+          · simp only [hsc, if_true]
+            exact ⟨hr.1, by rw [hmul]; exact Nat.le_trans hr.2 (Nat.le_add_left _ _)⟩
+          · simp only [hsc, Bool.false_eq_true, if_false]
+            have := hrest (rec t).sc
+            refine ⟨this.1, ?_⟩
+            simp only [steps_append]
+            rw [hmul]
+            have h1 := hr.2
+            have h2 := this.2
+            omega
+      · simp only [hc, Bool.false_eq_true, if_false]
         have := hrest sc
         exact ⟨this.1, by rw [hmul]; exact Nat.le_trans this.2 (Nat.le_add_right _ _)⟩
 
@@ -129,21 +132,17 @@ theorem find_mem {g : DirGraph} {k : String} {n : Node} (h : g.find k = some n) 
 theorem deg_le_maxDeg {g : DirGraph} {k : String} {n : Node} (h : g.find k = some n) :
     n.edges.length ≤ maxDeg g := foldl_max_mem g.nodes 0 n (find_mem h)
 
-theorem bnd_mono (d : Nat) : ∀ {a b : Nat}, a ≤ b → bnd d a ≤ bnd d b := by
-  intro a b h
+theorem bnd_step (d : Nat) : ∀ m, bnd d m ≤ bnd d (m + 1)
+  | 0 => by simp [bnd]
+  | m + 1 => by
+    have := Nat.mul_le_mul_left d (bnd_step d m)
+    simp only [bnd] at this ⊢
+    omega
+
+theorem bnd_mono (d : Nat) {a b : Nat} (h : a ≤ b) : bnd d a ≤ bnd d b := by
   induction h with
   | refl => exact Nat.le_refl _
-  | step _ ih =>
-    rename_i m _
-    have : bnd d m ≤ bnd d (m + 1) := by
-      induction m with
-      | zero => simp [bnd]
-      | succ m ihm =>
-        simp only [bnd]
-        have := Nat.mul_le_mul_left d ihm
-        simp only [bnd] at this
-        omega
-    exact Nat.le_trans ih this
+  | step _ ih => exact Nat.le_trans ih (bnd_step d _)
 
 /-! ### the simulation -/
 
